@@ -596,6 +596,8 @@ class FmtStr:
         """Gets atts shared among all nonzero length component Chunks"""
         # TODO cache this, could get ugly for large FmtStrs
         atts = {}
+        if not self.chunks:
+            return atts  # no characters at all (f * 0, sep.join([]))
         # compare against the first run that has characters: an empty leading
         # run (as left by fmtstr('') + x) shares nothing with anybody
         first = next((fs for fs in self.chunks if len(fs) > 0), self.chunks[0])
